@@ -34,7 +34,7 @@ def trigger_jobs(tier, seed):
     from framework.props import bigrun
 
     return matrix_jobs(tier, seed) + probe_jobs(tier, seed) + bigrun.jobs("C08", tier, seed + 4) + bigrun.interp_jobs(
-        "C08", tier, seed + 8, ["budget", "fixpoint"]) + [Job("framework.props.triggers", "run_triggers",
+        "C08", tier, seed + 8, ["budget", "fixpoint"], circuits=2 if tier == "quick" else 4) + [Job("framework.props.triggers", "run_triggers",
                 {"seed": seed * 389 + k, "count": 8000 if q else 60000, "deadline_s": 80 if q else 600},
                 mode="interp" if k % 2 else "jit", timeout=300 if q else 1500, tag="triggers:%d" % k)
             for k in range(2 if q else 6)]
